@@ -41,7 +41,7 @@ routines, which share this text (the node routine has no `EBC`, and one statemen
             if np.isinf(np.min(D[S])):
                 Q[:q + 1], = np.where(np.isinf(D))
                 break
-            V, = np.where(D == np.min(D[S]))
+            V, = np.where(np.logical_and(D == np.min(D[S]), S))
         DP = np.zeros((n,))
         for w in Q[:n - 1]:
             BC[w] += DP[w]
@@ -167,6 +167,8 @@ inductive Stmt
   | whereRow (x m : String) (i : SEx)
   /-- `x, = np.where(d == np.min(d'[s]))` -/
   | whereEqMin (x d d' s : String)
+  /-- `x, = np.where(np.logical_and(d == np.min(d'[s]), s'))` (`s'` a boolean vector) -/
+  | whereEqMinIn (x d d' s s' : String)
   /-- `v[:hi], = np.where(np.isinf(d))` (integer vector `v`, float vector `d`) -/
   | fillPrefixInf (v : String) (hi : SEx) (d : String)
   deriving DecidableEq, Repr
@@ -355,6 +357,11 @@ def exec (E : Env n) : Stmt → Option (Env n)
       | some m => some { E with lst := fun y => if y = x then some ((List.finRange n).filter fun i => D[i] == m) else E.lst y }
       | none => none
     | _, _, _ => none
+  | .whereEqMinIn x d d' s s' => match E.vec d, E.vec d', E.bvec s, E.bvec s' with
+    | some D, some D', some S, some S' => match minL (sel D' S) with
+      | some m => some { E with lst := fun y => if y = x then some ((List.finRange n).filter fun i => D[i] == m && S'[i]) else E.lst y }
+      | none => none
+    | _, _, _, _ => none
   | .fillPrefixInf v hi d => match E.ivec v, eval E hi, E.vec d with
     | some Q, some (.int z), some D =>
       match fillFrontV Q z ((List.finRange n).filter fun i => D[i].isInf) with
@@ -523,7 +530,7 @@ def refNode : WeiIR :=
     exit1 := .selEmpty "D" "S",
     exit2 := .minSelInf "D" "S",
     fill := [ .fillPrefixInf "Q" (.add (.var "q") (.lit 1)) "D" ],
-    next := [ .whereEqMin "V" "D" "D" "S" ],
+    next := [ .whereEqMinIn "V" "D" "D" "S" "S" ],
     mid := [ .zeros1 "DP" "n" ],
     bwVar := "w", bwVec := "Q", bwHi := .sub (.var "n") (.lit 1),
     acc := [ .aug1 "BC" (.var "w") (.at1 "DP" (.var "w")) ],
